@@ -6,7 +6,7 @@ CONSTANTS
   T = 2
   NT = 2
   NGen = 2
-  RestartMult = 1
+  RestartMult = 0
   TocCap = 1
   Ahead = 2
   Confirm = 2
@@ -16,7 +16,7 @@ CONSTANTS
   ProposalKinds <- MCKindsAll
   MaxDeliver = 4
   MaxQueue = 1
-  MaxTimeouts = 2
+  MaxTimeouts = 1
   MaxTicket = 1
   WithNotarizations = TRUE
   MergeUnverified = FALSE
